@@ -312,6 +312,15 @@ def replay_traces(ctx, model, traces, timeout=3600, maxfail=500):
     return res
 
 
+def order_leg(ctx, engine_cfg, what):
+    """FireOrder.tla cases (large rule bases, eight priority patterns) for one family of engines."""
+    edges = ctx.path(engine_cfg + ".edges")
+    g = tlc_gen(ctx, "FireOrder.tla", engine_cfg, edges, timeout=900)
+    r = replay(ctx, "fireorder", edges)
+    log("  %s: %d FireOrder cases (up to 55 rules), %d failing" % (what, g["edges"], r["failures_n"]))
+    os.remove(edges)
+
+
 def set_header_cfg(path, update):
     """Rewrite the cfg object in the first line of an edges / traces file (same graph, another harness configuration)."""
     with open(path) as fh:
